@@ -148,8 +148,11 @@ func WorkerMain(t *testing.T) {
 		no := start + i*stride
 		tp := NewSearch(seed, prop, no)
 		r := Execute(prop, seed, no, tp)
+		if tr := r.Notes["tape_race"]; tr != "" && r.Notes["internal_error"] == "" {
+			r.Notes["internal_error"] = "harness nondeterminism: " + tr
+		}
 		if ie := r.Notes["internal_error"]; ie != "" {
-			out.emit(map[string]any{"type": "error", "run": no, "msg": ie})
+			out.emit(map[string]any{"type": "error", "run": no, "msg": fmt.Sprintf("run %d: %s", no, ie)})
 			of.Sync()
 			os.Exit(2)
 		}
